@@ -26,6 +26,9 @@ def units(tier):
     for q in ("_read_bytes", "_read_line", "_parse_rtcm3", "_parse_ubx", "_parse_nmea", "parse", "_do_error", "__next__", "__init__"):
         us += func_units(f"{R}.{q}", tier)
     us += func_units(f"{R}.read", tier)
+    # socket-backed streams: SocketWrapper refines the stream contract (C11)
+    for q in ("_recv", "read", "readline", "__init__"):
+        us += func_units(f"pyrtcm.socketwrapper.SocketWrapper.{q}", tier, only=lambda i: i != "chunked")
     return us
 
 
